@@ -27,9 +27,11 @@ def validateAll (root : String) (els : List Elem) (targets : List String) (links
     let v ← validateTarget root els (linkTable links) t
     match v with
     | .valid leaf =>
-      let val := match values with
-        | some (.obj kvs) => (Json.lookup kvs leaf.name).getD .null
-        | _ => .null
+      -- an element kind that cannot provide a value (`get_value` raises NotImplementedError)
+      -- makes the whole call fail
+      let val ← match values with
+        | some (.obj kvs) => Json.lookup kvs leaf.name
+        | _ => some .null
       pure (t, Json.arr [.bool true, val])
     | .invalid n => pure (t, Json.arr [.bool false, .str n])
   -- a dict: a target listed twice yields one entry
